@@ -19,7 +19,7 @@ META = {
         'R1': 'construction table: a VoronoiFace is created for plane k of constructed cell i  <=>  V and (not(RS and SN) or right > i or (mask present and not mask[right])), '
               'at most once per plane, and all created faces are stored in plane order',
         'R2': 'symmetric-integral table: plane k is reported by compute_face_integrals_sym  <=>  V and not(SN and RS and right < i and mask[right]); equals R1 with the mask '
-              'present; the non-symmetric variant reports  <=>  V',
+              'present; the non-symmetric variant reports  <=>  V; the loops over the tetrahedra end only when the stream does (no exit with a tetrahedron in hand)',
         'R3': 'link table (finalize): face pushed to left always, to right iff right is Some and shift is None, nowhere else',
         'R4': 'wrapped search: the reported shift is -1 * (query shift) and is None iff all three components are zero',
         'R5': 'one neighbour position: the builder\'s R and HalfSpace::right_loc (non-wall arm, used by the exact predicate) are both generators[right].loc + shift',
@@ -95,6 +95,10 @@ def decision_check(ctx, F, rule, sfx, which):
                     'collected' if want else 'dropped', where(b, s.collects[0].line), key_extra='collect-table:%s' % dtab.fmt_env(env))
         else:
             ctx.ok(rule, '%s:every-tetrahedron-of-a-reported-plane-accumulated%s' % (which, sfx), 'collect reached on exactly the rows of reported planes (first and later tetrahedra)', 'collect <=> plane reported', where(b, s.collects[0].line))
+    # ... and the loop runs over ALL tetrahedra: it is left only when the stream ends (a `break` where a `continue` belongs drops every later face)
+    early = early_exits(s.ip)
+    ctx.check(rule, '%s:loop-runs-to-the-end-of-the-stream%s' % (which, sfx), not early, ('the tetrahedron loop is left with a tetrahedron in hand when %s' % early[0]) if early else 'the loop over the tetrahedra ends only when the stream does',
+              'every tetrahedron of the decomposition is looked at', where(b), key_extra='early-exit')
     return s, reach, T
 
 
